@@ -92,6 +92,30 @@ Proof.
   rewrite E. do 3 f_equal; lia.
 Qed.
 
+(* lossless or refused, for EVERY frequency (any residue modulo 100 / 200, any
+   range): what the encoder accepts decodes to the same values, except in the
+   window 1.2 GHz .. 2.4 GHz (finding C15-4 / C07-2) *)
+Theorem newchannelreq_lossless_or_error ch f mx mn bs :
+  0 <= ch < 256 -> 0 <= f -> 0 <= mx -> 0 <= mn ->
+  newchannelreq_marshal ch f mx mn = Ok bs ->
+  newchannelreq_unmarshal bs = Ok (ch, f, mx, mn) \/ 1200000000 <= f < 2400000000.
+Proof.
+  intros Hc Hf Hx Hn H.
+  destruct ((1200000000 <=? f) && (f <? 2400000000)) eqn:W; [right; lia|left].
+  assert (C : newchannel_freq_ok f = true /\ mx <= 15 /\ mn <= 15).
+  { revert H. unfold newchannelreq_marshal.
+    set (fr := if f >=? 2400000000 then f / 2 else f).
+    destruct (fr / 100 >=? 16777216) eqn:A; [discriminate|].
+    destruct (f mod 100 =? 0) eqn:M; [|discriminate]. cbn [negb].
+    destruct ((f >=? 2400000000) && negb (f mod 200 =? 0)) eqn:T; [discriminate|].
+    destruct (mx >? 15) eqn:D1; [discriminate|]. destruct (mn >? 15) eqn:D2; [discriminate|].
+    intros _. split; [|lia]. apply newchannel_freq_ok_spec. unfold fr in A.
+    destruct (f >=? 2400000000) eqn:G; lia. }
+  destruct C as (Ok1 & Hx' & Hn').
+  destruct (newchannelreq_roundtrip ch f mx mn Ok1 Hc (conj Hx Hx') (conj Hn Hn')) as (bs' & E & D).
+  rewrite H in E. injection E as <-. exact D.
+Qed.
+
 (* the window in which NewChannelReq is not lossless (finding C15-4 / C07-2) *)
 Theorem newchannelreq_refuted :
   exists bs, newchannelreq_marshal 3 1300000000 5 0 = Ok bs /\
